@@ -103,18 +103,26 @@ def u_fields_echo(fields):
     return fields
 
 
+def u_fields_a1(fields):
+    return {"a": 1}
+
+
+def u_fields_a0(fields):
+    return {"a": 0}
+
+
 UPD = {
     "time": {"shift_1h": u_shift_1h, "time_same": u_time_same, "time_const": u_time_const, "time_other_zone": u_time_other_zone},
     "measurement": {"meas_suffix": u_meas_suffix, "meas_const": u_meas_const},
     "tags": {"tags_const": u_tags_const, "tags_echo": u_tags_echo, "tags_upper": u_tags_upper, "tags_empty": u_tags_empty},
-    "fields": {"fields_scale": u_fields_scale, "fields_const": u_fields_const, "fields_echo": u_fields_echo},
+    "fields": {"fields_scale": u_fields_scale, "fields_const": u_fields_const, "fields_echo": u_fields_echo, "fields_a1": u_fields_a1, "fields_a0": u_fields_a0},
 }
 BAD_VALUES = {
     # what a misbehaving callable returns, per slot
     "time": [5, "2020-01-01", None],
     "measurement": [5, None, b"m"],
     "tags": [{"a": 5}, {5: "x"}, "notadict", {"a": b"x"}, {"a": True}],
-    "fields": [{"a": "str"}, {5: 1}, [1], {"a": True}, {"a": [1]}],
+    "fields": [{"a": "str"}, {5: 1}, [1], {"a": True}, {"a": [1]}, {"a": False}],
 }
 
 
@@ -513,6 +521,13 @@ class Lockstep:
             self.ctx.acc.cls("update_" + ("none_selected" if n_sel == 0 else "changed_all" if exp == n_sel else "changed_none" if exp == 0 else "changed_some"))
             if 0 < n_sel < len(self.model.points) and 0 < exp < n_sel:
                 self.flags.add("update_strict")
+
+    def op_update_primed_invalid(self, q, m, via, one):
+        """A callable returning the valid {"a": 1} (or 0), then - same query, same route - a callable returning the ==-equal but
+        invalid {"a": True} (or False): the second call must raise and change nothing, whatever was remembered from the first."""
+        good, bad = ("fields_a1", 3) if one else ("fields_a0", 5)
+        self.op_update(q, m, {"fields": ["fn", good]}, via)
+        self.op_update(q, m, {"fields": ["fn_invalid", 1, good, bad]}, via)
 
     def op_bad_update(self, kind, q, m):
         """Invalid static arguments: must raise ValueError/TypeError and change nothing."""
